@@ -35,6 +35,10 @@ ClassPages ==
   \cup {<<Cl(d, <<"Base1">>, <<M("ctor", <<"int">>, <<"a">>, FALSE, d2)>>, <<M("m1", <<"int", "args">>, <<"a", "b">>, m, d2), M("m2", <<>>, <<>>, FALSE, D0)>>,
            <<At("at1", TRUE, d2), At("at2", FALSE, D0)>>, <<>>)>> : d \in SomeDocs, d2 \in Docs, m \in BOOLEAN}
   \cup {<<Cl(D1, <<>>, <<>>, <<M("m1", <<"int">>, <<"a", "b">>, FALSE, d)>>, <<>>, <<"n2">>), Cl(d, <<>>, <<>>, <<>>, <<At("at1", TRUE, d)>>, <<>>), Fn(d)>> : d \in Docs}
+LongParams == <<"a_rather_long_parameter_name_one", "a_rather_long_parameter_name_two", "a_rather_long_parameter_name_three", "a_rather_long_parameter_name_four">>
+LongPages == {<<Cl(d, <<>>, <<>>, <<M("a_method_with_a_long_name", <<"int", "str", "bool", "desc">>, LongParams, FALSE, d)>>, <<>>, <<>>),
+               [Fn(d) EXCEPT !.args = LongParams]>> : d \in SomeDocs}
+MacroTestPages == {<<[Ts(d) EXCEPT !.value = "macro"], [Sc(d) EXCEPT !.value = "macro"], Fn(D1)>> : d \in SomeDocs}
 TwoInnerPages == {<<Cl(d, <<>>, <<>>, <<>>, <<>>, <<"n2", "n3">>), Cl(D0, <<>>, <<>>, <<>>, <<>>, <<>>), Cl(d, <<>>, <<>>, <<>>, <<>>, <<>>), Fn(d)>> : d \in SomeDocs}
-AllPages == TwoInnerPages \cup SinglePages \cup UndocPages \cup PairPages \cup ClassPages
+AllPages == LongPages \cup MacroTestPages \cup TwoInnerPages \cup SinglePages \cup UndocPages \cup PairPages \cup ClassPages
 =============================================================================
